@@ -39,8 +39,11 @@ def make_items(tier, seed):
                 want[k] -= 1
                 if want[k] == 0:
                     del want[k]
-                workers = rng.choice([1, 2, 3, 4, 8, 16]) if mode == "thread" else rng.choice([1, 2, 3, 4, 8, 16] if tier == "thorough" else [2, 3, 4])
-                items.append({"i": i, "mode": mode, "workers": workers,
+                workers = rng.randint(1, 16) if mode == "thread" else (rng.randint(1, 16) if tier == "thorough" else rng.randint(2, 6))
+                # thread/process variants are unaudited anyway, so their seed can be varied freely: documented special
+                # values (0 is falsy!), unseeded, and the case's own seed
+                sd = rng.choice(["own", "own", 0, 0, 1, "none", 42, 2 ** 32 - 1])
+                items.append({"i": i, "mode": mode, "workers": workers, **({} if sd == "own" else {"seed": sd}),
                               "delay": {"salt": f"{seed}-{i}-{mode}", "max_ms": 3.0 if mode == "thread" else 2.0, "p": 0.5}})
                 break
     return items
